@@ -287,3 +287,47 @@ __CPROVER_ensures(g_format_calls == 1)
     harness='  BW* s; TE* te; BW__populate_formatted_log_message(s, te);',
     dropped=['text of the error message', 'fmt argument store contents'], trusted=['fmtquill::vformat_to may throw any exception type (user formatters)'], min_obligations=20)
 UNITS.append(fmt_msg)
+
+# ------------------------------------------------------------------------------------------ _process_multi_line_message
+ML_PRELUDE = r'''
+typedef struct BW { int dummy; } BW;
+#define NPOS SIZE_MAX
+size_t g_n;            /* message length */
+size_t g_expect;       /* ghost: offset at which the next emitted line must start */
+size_t g_emitted;
+static inline size_t MSG_size(void) { return g_n; }
+static inline bool MSG_empty(void) { return g_n == 0; }
+/* msg.find_first_of('\n', start): the first newline at or after start (so [start, RET) contains none), or npos */
+size_t FIND_NL(size_t start) __CPROVER_assigns() __CPROVER_ensures(RET == NPOS || (RET >= start && RET < g_n));
+void WRITE_SEG(size_t off, size_t len)
+__CPROVER_requires(off == g_expect) /*@ C12 "lines are emitted in order and contiguously: each line starts right after the newline that ended the previous one" */
+__CPROVER_requires(off + len <= g_n) /*@ C12 "a line never extends beyond the message" */
+__CPROVER_assigns(g_expect, g_emitted) __CPROVER_ensures(g_expect == off + len + 1 && g_emitted == OLD(g_emitted) + 1);
+'''
+multiline = dict(
+    name='BW.multiline', primary='C12', props={'C12'}, kind='S',
+    desc='BackendWorker::_process_multi_line_message: one complete line per message line, in order, newline-free, the whole message covered, at most one trailing newline dropped; empty message = one empty line',
+    structs=[], prelude=ML_PRELUDE, enforce='BW_multiline', replace=['FIND_NL', 'WRITE_SEG'], loopcontracts=True,
+    funcs=[dict(src=dict(header=H, cls='BackendWorker', name='_process_multi_line_message'), src_params=['transit_event', 'thread_id', 'thread_name', 'log_level_description', 'log_level_short_code'],
+                cfun='BW_multiline', sig='void BW_multiline(BW* self)', cls_c='BW', member_fields=[],
+                pre_rules=[(r'auto\s+const\s+msg\s*=\s*std::string_view\{[^{}]*\}\s*;', '', 1),
+                           (r'_write_log_statement\s*\([^;]*?log_level_short_code,\s*msg\s*\)\s*;', 'WRITE_SEG(0, 0);', 1),
+                           (r'_write_log_statement\s*\([^;]*?std::string_view\(msg\.data\(\) \+ start,\s*(.*?)\)\s*\)\s*;', r'WRITE_SEG(start, \1);', 2),
+                           (r'msg\.find_first_of\(\'\\n\',\s*start\)', 'FIND_NL(start)', 1), (r'msg\.size\(\)', 'MSG_size()'), (r'msg\.empty\(\)', 'MSG_empty()', 1),
+                           (r'std::string_view::npos', 'NPOS', 1)],
+                loops={0: r'''
+__CPROVER_assigns(start, g_expect, g_emitted)
+__CPROVER_loop_invariant(start == g_expect && start <= g_n && g_emitted <= start && (start > 0 ==> g_emitted >= 1))
+__CPROVER_decreases(g_n - start)
+'''},
+                contract=r'''
+__CPROVER_requires(__CPROVER_is_fresh(self, sizeof(*self)) && g_expect == 0 && g_emitted == 0 && g_n <= (((size_t)1) << 40))
+__CPROVER_assigns(g_expect, g_emitted)
+__CPROVER_ensures(g_n == 0 ==> g_emitted == 1) /*@ C12 "an empty message yields one (empty) line" */
+__CPROVER_ensures(g_n > 0 ==> (g_expect == g_n || g_expect == g_n + 1)) /*@ C12 "the emitted lines cover the whole message; only a final newline is dropped" */
+__CPROVER_ensures(g_emitted >= 1) /*@ C12 "every statement yields at least one line" */
+''')],
+    harness='  BW* s; BW_multiline(s);',
+    dropped=['message bytes (newline positions are given by the find_first_of stub: first newline at or after the start)', 'statement attributes passed through to _write_log_statement'],
+    trusted=['std::string_view::find_first_of returns the first match'], min_obligations=20)
+UNITS.append(multiline)
